@@ -16,6 +16,7 @@ type route struct {
 	Method, Path string
 	Handler      *ssa.Function
 	Decorators   []string // names in application order (first = innermost)
+	DecVals      []ssa.Value
 	Site         ssa.Instruction
 	Raw          bool // registered with HandlerFunc/Handler (no Decorate)
 }
@@ -99,6 +100,7 @@ func routesOf(p *an.Prog, fn *ssa.Function) []route {
 			type ds struct {
 				idx  int64
 				name string
+				val  ssa.Value
 			}
 			var decs []ds
 			if sl, ok := dec.Call.Args[1].(*ssa.Slice); ok {
@@ -111,7 +113,7 @@ func routesOf(p *an.Prog, fn *ssa.Function) []route {
 						k, _ := an.ConstInt(ia.Index)
 						for _, r3 := range an.Referrers(ia) {
 							if st, ok := r3.(*ssa.Store); ok && st.Addr == ia {
-								decs = append(decs, ds{k, decoratorName(p, st.Val)})
+								decs = append(decs, ds{k, decoratorName(p, st.Val), st.Val})
 							}
 						}
 					}
@@ -120,6 +122,7 @@ func routesOf(p *an.Prog, fn *ssa.Function) []route {
 			sort.Slice(decs, func(i, j int) bool { return decs[i].idx < decs[j].idx })
 			for _, d := range decs {
 				r.Decorators = append(r.Decorators, d.name)
+				r.DecVals = append(r.DecVals, d.val)
 			}
 		}
 		out = append(out, r)
